@@ -24,6 +24,10 @@ CtVals == {Nat2I(0), Nat2I(60), Z2I(11544), Nat2I(1), Neg2I(1), I63,
            T(<<194,160,97,47,98>>),         \* NBSP "a/b"
            T(<<97,47,98,227,128,128>>),     \* "a/b" IDEOGRAPHIC SPACE
            T(<<47>>),                       \* "/"
+           T(<<195,169,195,169,47,98>>),    \* "éé/b"  multi-byte characters before the slash
+           T(<<230,151,165,47,120>>),       \* "日/x"
+           T(<<97,47,240,159,152,128>>),    \* "a/😀"
+           T(<<195,169,47,98,47,99>>),      \* "é/b/c"  (two slashes)
            T(<<97,47,32,98>>),              \* "a/ b"  (inner white space is fine)
            T(<<226,128,139,97,47,98>>),     \* ZERO WIDTH SPACE "a/b" (not White_Space)
            B1, EmptyArr}
